@@ -267,6 +267,11 @@ def classify(diag, meta, gen_lines):
     elif any(o in low for o in OBLIGATION_MSGS):
         if labels:
             rec['class'] = 'labelled'
+        elif 'invariant not satisfied' in low and site_fn is not None:
+            # a loop invariant is part of the function's contract: it held on the unchanged tree and no
+            # longer holds for this body.  Owned by the fn block's props.
+            rec['class'] = 'builtin'
+            rec['labels'] = []
         elif primary_kind == 'inserted' or (site_fn is None):
             # assertion inside hand-written proof text or a lemma: a proof step, not a property clause
             rec['class'] = 'proof-step'
@@ -286,7 +291,8 @@ def classify(diag, meta, gen_lines):
     if rec['class'] in ('labelled',):
         rec['obligation'] = '%s/%s/%s' % (meta['unit'], site_fn['name'] if site_fn else '-', '+'.join(rec['labels']))
     elif rec['class'] == 'builtin':
-        rec['obligation'] = '%s/%s/no-panic(%s)' % (meta['unit'], site_fn['name'], re.sub(r'\s+', '-', msg.strip())[:40])
+        kindname = 'invariant' if 'invariant' in low else 'no-panic'
+        rec['obligation'] = '%s/%s/%s(%s)' % (meta['unit'], site_fn['name'], kindname, re.sub(r'\s+', '-', msg.strip())[:40])
     else:
         rec['obligation'] = '%s/%s/%s' % (meta['unit'], site_fn['name'] if site_fn else '-', rec['class'])
     return rec
@@ -486,6 +492,7 @@ def check_property(pid, tier='quick', seed=0, witness_hook=None):
                                    'failures': [f['obligation'] for f in rr.failures]})
     exit_code = 0
     violations = []
+    fallback_violations = []
     known_hits = []
     undecided = []
     fn_list = []
@@ -497,7 +504,15 @@ def check_property(pid, tier='quick', seed=0, witness_hook=None):
     vac_checked = 0
     for r in results:
         if r.status == 'error':
-            undecided.append('%s: %s' % (r.unit, r.message))
+            # The verifier could not pose the question (lost anchor, construct outside the subset).  A bounded
+            # stand-in may still DECIDE AGAINST the code: a concrete input on which the real crate disagrees
+            # with the executable transcription of the spec function is a violation with a replay.  Finding
+            # none leaves the property undecided (never "held").
+            fb = fallback_witness(pid, r.unit, r.message, witness_hook)
+            if fb:
+                fallback_violations.append(fb)
+            else:
+                undecided.append('%s: %s' % (r.unit, r.message))
             continue
         gen_text = open(r.gen_path).read()
         tf = tagged_functions(r.meta, pid, gen_text)
@@ -575,6 +590,11 @@ def check_property(pid, tier='quick', seed=0, witness_hook=None):
         print('VIOLATION property=%s replay=%s%s' % (pid, rp, tail))
         vio_out.append(f['obligation'])
         exit_code = 1
+    for fb in fallback_violations:
+        print('FAILED OBLIGATION %s: %s' % (fb['obligation'], fb['verifier_message'][:200]))
+        print('VIOLATION property=%s replay=%s' % (pid, fb['path']))
+        vio_out.append(fb['obligation'])
+        exit_code = 1
     if exit_code == 0 and undecided:
         for u in undecided:
             print('UNDECIDED property=%s %s' % (pid, u))
@@ -629,6 +649,43 @@ def check_property(pid, tier='quick', seed=0, witness_hook=None):
     print('%s: units=%s obligations=%d discharged=%d functions=%d known=%d violations=%d undecided=%d wall=%.1fs exit=%d' % (
         pid, ','.join(units), obligations, ev['coverage']['discharged'], len(fn_list), len(known_hits), len(vio_out), len(undecided), wall, exit_code))
     return exit_code
+
+
+def fallback_witness(pid, unit, reason, witness_hook):
+    """Bounded stand-in used only when a unit cannot be generated/processed: run the registered native
+    witness searches for this property's labels of that unit.  Returns a replay record or None."""
+    if witness_hook is None:
+        return None
+    try:
+        txt = unit_template_text(unit)
+    except Exception:
+        return None
+    labels = []
+    for no, labs in extract.labels_in(txt):
+        for lab in labs:
+            if pid in props_of_label(lab) and lab not in labels:
+                labels.append(lab)
+    if not labels:
+        return None
+    fake = {'labels': labels, 'obligation': '%s/-/bounded-witness' % unit}
+    replay = {'property': pid, 'obligation': '%s/-/bounded-witness' % unit, 'labels': labels, 'site': None,
+              'site_fn': None, 'verifier': 'verus (could not pose the obligation) + bounded native witness search',
+              'verifier_message': 'unit %s could not be verified on this tree: %s' % (unit, reason[:400]),
+              'spans': [], 'counterexample': None, 'bounded': True}
+    try:
+        found = witness_hook(pid, fake, replay)
+    except Exception as e:
+        return None
+    if not found:
+        return None
+    replay['counterexample'] = found
+    replay['obligation'] = '%s/-/bounded-witness(%s)' % (unit, found.get('kind') or 'cmd')
+    os.makedirs(REPLAYS, exist_ok=True)
+    rp = os.path.join(REPLAYS, '%s-%s.json' % (pid, re.sub(r'[^\w.+-]+', '_', replay['obligation'])[:120]))
+    with open(rp, 'w') as fh:
+        json.dump(replay, fh, indent=1)
+    replay['path'] = rp
+    return replay
 
 
 def fmt_site(f):
